@@ -45,6 +45,7 @@ type rtScenario struct {
 	Burst   bool     `json:"burst"` // M2: clients run their whole programs freely in parallel, then exact quiescence
 	NCtx    int      `json:"nctx"`  // number of distinct root contexts
 	Ticks   int      `json:"ticks"`
+	BoStop  int      `json:"bostop"` // >0: the backoff gives up (returns Stop) from its n-th NextBackOff call on
 	Clients [][]rtOp `json:"clients"`
 }
 
@@ -63,13 +64,21 @@ type rtInst struct {
 	actor string
 }
 
-type rtBackoff struct{ d *rtDriver }
+type rtBackoff struct {
+	d *rtDriver
+	n int
+}
 
 func (b *rtBackoff) NextBackOff() time.Duration {
+	b.n++
+	if b.d.sc.BoStop > 0 && b.n >= b.d.sc.BoStop {
+		b.d.x.Log(trace.E{"ev": "bo", "op": "stop"})
+		return cbackoff.Stop
+	}
 	b.d.x.Log(trace.E{"ev": "bo", "op": "next"})
 	return rtUnit
 }
-func (b *rtBackoff) Reset() { b.d.x.Log(trace.E{"ev": "bo", "op": "reset"}) }
+func (b *rtBackoff) Reset() { b.n = 0; b.d.x.Log(trace.E{"ev": "bo", "op": "reset"}) }
 
 var _ cbackoff.BackOff = (*rtBackoff)(nil)
 
@@ -125,6 +134,9 @@ func genRoutine(x *sched.Exec) rtScenario {
 	sc.Retry = r.Intn(3) == 0
 	if sc.Retry {
 		sc.Ticks = 2 + r.Intn(4)
+		if r.Intn(3) == 0 {
+			sc.BoStop = 1 + r.Intn(2)
+		}
 	}
 	ncl := 1 + r.Intn(2)
 	if sc.Seq {
